@@ -453,6 +453,12 @@ def m_find_char(ex, args, callee):
     i = s.find(args[1]); return ex.some(len(s[:i].encode())) if i >= 0 else ex.none()
 
 
+def str_len(s):
+    if isinstance(s, str): return len(s.encode())
+    if isinstance(s, SB): return len(s.bs)
+    raise Unsupported(f'length of {s!r}')
+
+
 def need_str(f):
     def g(ex, args, callee):
         s = dv(args[0])
@@ -505,7 +511,7 @@ BASE_MODELS = [
     (r' as Clone>::clone$', ident), (r'String as Deref>::deref$', ident), (r'String::as_str$', ident),
     (r' as ToString>::to_string$', ident), (r'String as From<&str>>::from$', ident), (r'str>::to_string$|str>::to_owned$', ident),
     (r'<str as ToOwned>::to_owned$', ident), (r'String::as_bytes$|str>::as_bytes$', ident),
-    (r'<std::string::String as Borrow<str>>::borrow$|as AsRef<str>>::as_ref$', ident),
+    (r'<String as Borrow<str>>::borrow$|as AsRef<str>>::as_ref$', ident),
     (r'Vec<.*> as Deref>::deref$|Vec<.*> as DerefMut>::deref_mut$', ident_ref), (r'Vec::<.*>::as_slice$', ident_ref),
     (r'Vec::<.*>::iter$|slice::<impl \[.*\]>::iter$|BTreeMap::<.*>::iter$|BTreeSet::<.*>::iter$', lambda ex, a, c: as_iter(ex, a[0])),
     (r' as IntoIterator>::into_iter$', m_into_iter), (r' as Iterator>::next$', m_iter_next),
@@ -558,7 +564,9 @@ BASE_MODELS = [
     (r'str>::starts_with::<char>$', need_str(lambda s, c: s.startswith(c))), (r'str>::ends_with::<char>$', need_str(lambda s, c: s.endswith(c))),
     (r'str>::find::<char>$', m_find_char), (r'str>::to_uppercase$', need_str(lambda s: s.upper())),
     (r'str>::to_lowercase$', need_str(lambda s: s.lower())),
-    (r'str as std::ops::Index<', m_str_index),
+    (r'str as Index<', m_str_index),
+    (r'<impl str>::is_empty$|String::is_empty$', lambda ex, a, c: str_len(dv(a[0])) == 0),
+    (r'<impl str>::len$|String::len$', lambda ex, a, c: str_len(dv(a[0]))),
     (r'Arguments::<.*>::(new|from_str|new_const|new_v1)|Argument::<.*>::new_|^core::fmt::rt::', lambda ex, a, c: Opaque('fmt')),
     (r'^std::fmt::format$|^alloc::fmt::format$', lambda ex, a, c: SymStr(z3.FreshConst(StrSort, 'fmt'))),
     (r'^must_use::', ident),
